@@ -1,5 +1,6 @@
 From A1 Require Import Base.Res.
 From A1 Require Export Extract.OpsDer.
+From A1 Require Extract.OpsBits.
 Local Open Scope Z_scope.
 
 (* top-level dispatcher; op code ranges per layer *)
@@ -8,6 +9,7 @@ Definition mode_of (dev : bool) : mode := if dev then dev_mode else release_mode
 Definition run (dev : bool) (op : Z) (args : list Z) : list Z :=
   let m := mode_of dev in
   if (2000 <=? op) && (op <? 2100) then run_der op args
+  else if (1100 <=? op) && (op <? 1200) then OpsBits.run_bits m op args
   else [-1].
 
 Fixpoint list_z_eqb (a b : list Z) : bool :=
